@@ -1,5 +1,327 @@
-import Bkl
+/-
+  C14 — "$encode produces the named standard encodings and $decode inverts them".
+  Model: Bkl/Encode.lean (`encodeAny`, `encodeList`, `encodeString`, `base64`, `sha256Hex`, `fmtV`).
+  Specification functions (`encStep`, `joinSpec`, `prefixSpec`, `flattenSpec`, `valuesSpec`,
+  `tolistSpec`, `b64Idx`, `b64DecodeChars`) are written independently of the model in
+  BklProofs/Lemmas/Encode.lean.
+  `String.splitOn ":"` (argument parsing) is characterised once and for all by `splitOn_colon`,
+  so the transform theorems are generic in the delimiter / prefix argument.
+-/
+import BklProofs.Lemmas.Encode
 namespace Bkl
-/-- placeholder until the property theorems land -/
-theorem C14_placeholder : validate (.int 1) = .ok () := by simp [validate]; rfl
+
+/-! ## C14_stack — a list of specs is applied left to right, stopping at the first failure -/
+
+theorem C14_stack_nil (obj : Val) : encodeAny obj (.list []) = .ok obj := by
+  simp [encodeAny, encodeList]
+
+theorem C14_stack_cons (obj sp : Val) (rest : List Val) :
+    encodeAny obj (.list (sp :: rest)) =
+      match encodeAny obj sp with
+      | .ok v => encodeAny v (.list rest)
+      | e => e := by
+  simp only [encodeAny, encodeList]
+  cases encodeAny obj sp <;> simp
+
+/-- the whole stack is the left fold of `encStep` (defined in Lemmas/Encode.lean) -/
+theorem C14_stack (obj : Val) (specs : List Val) :
+    encodeAny obj (.list specs) = specs.foldl encStep (.ok obj) := by
+  simp only [encodeAny]
+  induction specs generalizing obj with
+  | nil => simp [encodeList]
+  | cons sp rest ih =>
+    simp only [encodeList, List.foldl_cons, encStep]
+    cases h : encodeAny obj sp with
+    | ok v => simpa using ih v
+    | err e => simp [encStep_foldl_err]
+    | codec f v => simp [encStep_foldl_codec]
+
+/-- two string transforms: apply `a`, then `b` to its result -/
+theorem C14_stack_two (obj : Val) (a b : String) :
+    encodeAny obj (.list [.str a, .str b]) =
+      match encodeString obj a with
+      | .ok v => encodeString v b
+      | e => e := by
+  simp only [encodeAny, encodeList]
+  cases encodeString obj a <;> simp
+  cases encodeString _ b <;> rfl
+
+/-! ## the list / map transforms against independent specifications -/
+
+/-- `join` without argument: concatenation of the `%v` renderings -/
+theorem C14_join_nodelim (obj : Val) : encodeString obj "join" = joinSpec "" obj := by
+  unfold encodeString
+  rw [parts_join]
+  cases obj <;> simp [joinSpec, toStringListPermissive] <;> rfl
+
+/-- `join:d` for every delimiter `d` without ':' -/
+theorem C14_join (obj : Val) (d : String) (hd : ':' ∉ d.toList) :
+    encodeString obj ("join:" ++ d) = joinSpec d obj := by
+  unfold encodeString
+  have : ("join:" ++ d).splitOn ":" = ["join", d] := by
+    simpa using splitOn_colon_two "join" d (by decide) hd
+  rw [this]
+  cases obj <;> simp [joinSpec, toStringListPermissive] <;> rfl
+
+example : ':' ∉ ",".toList := by decide   -- non-vacuity of `hd`
+/-- tests -/
+example : encodeString (.list [.int 1, .str "b", .bool true]) "join:," = .ok (.str "1,b,true") := by
+  rw [show "join:," = "join:" ++ "," from by decide, C14_join _ _ (by decide)]; decide
+example : encodeString (.list [.str "a", .str "b"]) "join:-" = .ok (.str "a-b") := by
+  rw [show "join:-" = "join:" ++ "-" from by decide, C14_join _ _ (by decide)]; decide
+
+/-- `prefix:p` for every prefix `p` without ':' -/
+theorem C14_prefix (obj : Val) (p : String) (hp : ':' ∉ p.toList) :
+    encodeString obj ("prefix:" ++ p) = prefixSpec p obj := by
+  unfold encodeString
+  have : ("prefix:" ++ p).splitOn ":" = ["prefix", p] := by
+    simpa using splitOn_colon_two "prefix" p (by decide) hp
+  rw [this]
+  cases obj <;>
+    simp [prefixSpec, toStringListPermissive, pure, Except.pure, Function.comp_def] <;> rfl
+
+example : ':' ∉ "--".toList := by decide
+example : encodeString (.list [.str "a", .int 2]) "prefix:p-" = .ok (.list [.str "p-a", .str "p-2"]) := by
+  rw [show "prefix:p-" = "prefix:" ++ "p-" from by decide, C14_prefix _ _ (by decide)]; decide
+
+theorem C14_flatten (obj : Val) : encodeString obj "flatten" = flattenSpec obj := by
+  unfold encodeString
+  rw [parts_flatten]
+  cases obj <;> simp [flattenSpec, flattenList_eq]
+
+example : encodeString (.list [.list [.int 1, .int 2], .int 3, .list []]) "flatten"
+    = .ok (.list [.int 1, .int 2, .int 3]) := by rw [C14_flatten]; rfl
+
+theorem C14_values (obj : Val) : encodeString obj "values" = valuesSpec obj := by
+  unfold encodeString
+  rw [parts_values]
+  cases obj <;> simp [valuesSpec]
+  exact map_snd_eq _
+
+example : encodeString (.map [("a", .int 1), ("b", .str "x")]) "values"
+    = .ok (.list [.int 1, .str "x"]) := by rw [C14_values]; rfl
+
+/-- `tolist:d` for every delimiter `d` without ':' -/
+theorem C14_tolist (obj : Val) (d : String) (hd : ':' ∉ d.toList) :
+    encodeString obj ("tolist:" ++ d) = tolistSpec d obj := by
+  unfold encodeString
+  have : ("tolist:" ++ d).splitOn ":" = ["tolist", d] := by
+    simpa using splitOn_colon_two "tolist" d (by decide) hd
+  rw [this]
+  cases obj with
+  | map kvs => simp [tolistSpec, toListMap_map]
+  | list xs => cases h : tolistMaps d xs <;> simp [tolistSpec, toListList_eq, h]
+  | _ => simp [tolistSpec, toListMap]; rfl
+
+example : ':' ∉ "=".toList := by decide
+/-- test: list values fan out, the empty string gives the bare key, keys in order -/
+example : encodeString (.map [("a", .int 1), ("b", .list [.str "x", .str "y"]), ("c", .str "")])
+    "tolist:=" = .ok (.list [.str "a=1", .str "b=x", .str "b=y", .str "c"]) := by
+  rw [show "tolist:=" = "tolist:" ++ "=" from by decide, C14_tolist _ _ (by decide)]; decide
+
+/-- `tolist::` (delimiter ':') has three parts and is rejected -/
+theorem C14_tolist_colon (obj : Val) : encodeString obj "tolist::" = .err .invalidArguments := by
+  unfold encodeString
+  rw [parts_tolist_colon]
+  simp
+
+/-! ## C14_flags_def — `flags` is exactly `[tolist:=, prefix:--]` -/
+
+theorem C14_flags_def (obj : Val) :
+    encodeString obj "flags" = encodeAny obj (.list [.str "tolist:=", .str "prefix:--"]) := by
+  have h1 := C14_tolist obj "=" (by decide)
+  have h2 := fun o => C14_prefix o "--" (by decide)
+  rw [show "tolist:" ++ "=" = "tolist:=" from by decide] at h1
+  rw [show "prefix:" ++ "--" = "prefix:--" from by decide] at h2
+  simp only [encodeAny, encodeList, h1, encodeString_flags]
+  cases obj with
+  | map kvs => simp [tolistSpec, toListMap_map, h2, prefixSpec]
+  | list xs => cases h : tolistMaps "=" xs <;> simp [tolistSpec, toListList_eq, h, h2, prefixSpec]
+  | _ => simp [tolistSpec, toListMap]; rfl
+
+example : encodeString (.map [("a", .int 1), ("v", .str "")]) "flags"
+    = .ok (.list [.str "--a=1", .str "--v"]) := by
+  rw [C14_flags_def, C14_stack_two,
+    show "tolist:=" = "tolist:" ++ "=" from by decide, C14_tolist _ _ (by decide)]
+  simp only [tolistSpec]
+  rw [show "prefix:--" = "prefix:" ++ "--" from by decide, C14_prefix _ _ (by decide)]
+  decide
+
+/-! ## C14_bad_args_error -/
+
+/-- commands that take no argument reject any (generic in the argument text `x`) -/
+theorem C14_bad_args_noarg (obj : Val) (x : String) :
+    encodeString obj ("base64:" ++ x) = .err .invalidArguments ∧
+    encodeString obj ("sha256:" ++ x) = .err .invalidArguments ∧
+    encodeString obj ("flatten:" ++ x) = .err .invalidArguments ∧
+    encodeString obj ("values:" ++ x) = .err .invalidArguments ∧
+    encodeString obj ("flags:" ++ x) = .err .invalidArguments := by
+  refine ⟨?_, ?_, ?_, ?_, ?_⟩
+  · obtain ⟨p, ps, h⟩ := parts_with_arg "base64" x (by decide)
+    have h' : ("base64:" ++ x).splitOn ":" = "base64" :: p :: ps := by simpa using h
+    unfold encodeString; rw [h']; simp
+  · obtain ⟨p, ps, h⟩ := parts_with_arg "sha256" x (by decide)
+    have h' : ("sha256:" ++ x).splitOn ":" = "sha256" :: p :: ps := by simpa using h
+    unfold encodeString; rw [h']; simp
+  · obtain ⟨p, ps, h⟩ := parts_with_arg "flatten" x (by decide)
+    have h' : ("flatten:" ++ x).splitOn ":" = "flatten" :: p :: ps := by simpa using h
+    unfold encodeString; rw [h']; simp
+  · obtain ⟨p, ps, h⟩ := parts_with_arg "values" x (by decide)
+    have h' : ("values:" ++ x).splitOn ":" = "values" :: p :: ps := by simpa using h
+    unfold encodeString; rw [h']; simp
+  · obtain ⟨p, ps, h⟩ := parts_with_arg "flags" x (by decide)
+    have h' : ("flags:" ++ x).splitOn ":" = "flags" :: p :: ps := by simpa using h
+    unfold encodeString; rw [h']; simp
+
+/-- the enumerated malformed specs -/
+theorem C14_bad_args_error (obj : Val) :
+    encodeString obj "base64:x" = .err .invalidArguments ∧
+    encodeString obj "sha256:1" = .err .invalidArguments ∧
+    encodeString obj "flatten:x" = .err .invalidArguments ∧
+    encodeString obj "values:x" = .err .invalidArguments ∧
+    encodeString obj "flags:x" = .err .invalidArguments ∧
+    encodeString obj "prefix" = .err .invalidArguments ∧
+    encodeString obj "tolist" = .err .invalidArguments ∧
+    encodeString obj "join:a:b" = .err .invalidArguments ∧
+    encodeString obj "tolist::" = .err .invalidArguments ∧
+    encodeString obj "nosuch" = .err .unknownFormat := by
+  have g1 := C14_bad_args_noarg obj "x"
+  have g2 := C14_bad_args_noarg obj "1"
+  refine ⟨by simpa using g1.1, by simpa using g2.2.1, by simpa using g1.2.2.1,
+    by simpa using g1.2.2.2.1, by simpa using g1.2.2.2.2, ?_, ?_, ?_, C14_tolist_colon obj, ?_⟩
+  · unfold encodeString; rw [parts_prefix]; simp
+  · unfold encodeString; rw [parts_tolist]; simp
+  · unfold encodeString; rw [parts_join_ab]; simp
+  · unfold encodeString; rw [parts_nosuch]; simp [isCodecFormat]
+
+/-- a spec that is neither a string nor a list -/
+theorem C14_bad_spec_type (obj v : Val) (h1 : ∀ s, v ≠ .str s) (h2 : ∀ l, v ≠ .list l) :
+    encodeAny obj v = .err .invalidType := by
+  cases v <;> first | rfl | exact absurd rfl (h1 _) | exact absurd rfl (h2 _)
+
+example : (∀ s, Val.int 3 ≠ .str s) ∧ (∀ l, Val.int 3 ≠ .list l) :=
+  ⟨fun _ h => (by cases h), fun _ h => (by cases h)⟩
+
+/-- wrong operand type: join/prefix/flatten need a list, values needs a map,
+    tolist needs a map or a list of maps -/
+theorem C14_bad_operand_type (obj : Val) (d : String) (hd : ':' ∉ d.toList) :
+    ((∀ l, obj ≠ .list l) →
+      encodeString obj "join" = .err .invalidType ∧
+      encodeString obj ("join:" ++ d) = .err .invalidType ∧
+      encodeString obj ("prefix:" ++ d) = .err .invalidType ∧
+      encodeString obj "flatten" = .err .invalidType) ∧
+    ((∀ m, obj ≠ .map m) → encodeString obj "values" = .err .invalidType) ∧
+    ((∀ m, obj ≠ .map m) → (∀ l, obj ≠ .list l) →
+      encodeString obj ("tolist:" ++ d) = .err .invalidType ∧
+      encodeString obj "flags" = .err .invalidType) ∧
+    (∀ xs x, obj = .list xs → x ∈ xs → (∀ m, x ≠ .map m) →
+      encodeString obj ("tolist:" ++ d) = .err .invalidType) := by
+  refine ⟨fun h => ?_, fun h => ?_, fun h h' => ?_, fun xs x e hx hm => ?_⟩
+  · rw [C14_join_nodelim, C14_join _ _ hd, C14_prefix _ _ hd, C14_flatten]
+    cases obj <;> first | exact absurd rfl (h _) | simp [joinSpec, prefixSpec, flattenSpec]
+  · rw [C14_values]
+    cases obj <;> first | exact absurd rfl (h _) | simp [valuesSpec]
+  · rw [C14_tolist _ _ hd, C14_flags_def, C14_stack_two,
+      show "tolist:=" = "tolist:" ++ "=" from by decide, C14_tolist _ _ (by decide)]
+    cases obj <;> first | exact absurd rfl (h _) | exact absurd rfl (h' _) | simp [tolistSpec]
+  · subst e
+    rw [C14_tolist _ _ hd]
+    simp only [tolistSpec]
+    have : tolistMaps d xs = .error .invalidType := by
+      induction xs with
+      | nil => cases hx
+      | cons y ys ih =>
+        cases y with
+        | map kvs =>
+          have hx' : x ∈ ys := by
+            rcases List.mem_cons.1 hx with e | e
+            · exact absurd e (hm kvs)
+            · exact e
+          simp [tolistMaps, ih hx']
+        | _ => rfl
+    rw [this]
+
+/-! ## C14_base64_rt — the encoder is inverted by an independent RFC 4648 decoder -/
+
+theorem C14_base64_rt (bs : List UInt8) : b64DecodeChars (b64EncodeBytes bs) = some bs :=
+  b64_roundtrip bs
+
+/-- at the level of the model's `base64 : String → String` -/
+theorem C14_base64_rt_string (s : String) :
+    b64DecodeChars (base64 s).toList = some s.toUTF8.toList := by
+  simp only [base64, String.toList_ofList]
+  exact b64_roundtrip _
+
+/-- the alphabet is RFC 4648 Table 1 -/
+theorem C14_base64_alphabet : ∀ n, n < 64 → b64Idx (b64Char n) = some n := b64Idx_table
+
+/-- tests: RFC 4648 §10 test vectors -/
+example : base64 "" = "" := by simp [base64, byteArray_toList]; decide
+example : base64 "f" = "Zg==" := by
+  have : "f".toUTF8.toList = [102] := by rw [byteArray_toList]; decide
+  simp only [base64, this]; decide
+example : base64 "fo" = "Zm8=" := by
+  have : "fo".toUTF8.toList = [102, 111] := by rw [byteArray_toList]; decide
+  simp only [base64, this]; decide
+example : base64 "foo" = "Zm9v" := by
+  have : "foo".toUTF8.toList = [102, 111, 111] := by rw [byteArray_toList]; decide
+  simp only [base64, this]; decide
+example : base64 "foob" = "Zm9vYg==" := by
+  have : "foob".toUTF8.toList = [102, 111, 111, 98] := by rw [byteArray_toList]; decide
+  simp only [base64, this]; decide
+example : base64 "fooba" = "Zm9vYmE=" := by
+  have : "fooba".toUTF8.toList = [102, 111, 111, 98, 97] := by rw [byteArray_toList]; decide
+  simp only [base64, this]; decide
+example : base64 "foobar" = "Zm9vYmFy" := by
+  have : "foobar".toUTF8.toList = [102, 111, 111, 98, 97, 114] := by
+    rw [byteArray_toList]; decide
+  simp only [base64, this]; decide
+/-- tests: the decoder on the same vectors, and rejection of malformed input -/
+example : b64DecodeChars "Zm9vYmE=".toList = some [102, 111, 111, 98, 97] := by decide
+example : b64DecodeChars "Zm9vYg==".toList = some [102, 111, 111, 98] := by decide
+example : b64DecodeChars "Zm9".toList = none := by decide
+example : b64DecodeChars "Zm=v".toList = none := by decide
+
+/-! ## C14_sha256_vectors — FIPS 180-4 / NIST test vectors, checked by kernel evaluation
+    (`sha256Hex_eq` rewrites the model's loops into folds; plain `decide`) -/
+
+set_option maxRecDepth 1000000 in
+/-- test vector: the empty message -/
+theorem C14_sha256_vector_empty :
+    sha256Hex "" = "e3b0c44298fc1c149afbf4c8996fb92427ae41e4649b934ca495991b7852b855" := by
+  rw [sha256Hex_eq]
+  have : "".toUTF8.data.toList = [] := by decide
+  rw [this]
+  decide
+
+set_option maxRecDepth 1000000 in
+/-- test vector: "abc" -/
+theorem C14_sha256_vector_abc :
+    sha256Hex "abc" = "ba7816bf8f01cfea414140de5dae2223b00361a396177a9cb410ff61f20015ad" := by
+  rw [sha256Hex_eq]
+  have : "abc".toUTF8.data.toList = [97, 98, 99] := by decide
+  rw [this]
+  decide
+
+set_option maxRecDepth 1000000 in
+/-- test vector: a two-block message (56 bytes) -/
+theorem C14_sha256_vector_two_blocks :
+    sha256HexBytes "abcdbcdecdefdefgefghfghighijhijkijkljklmklmnlmnomnopnopq".toUTF8.data.toList
+      = "248d6a61d20638b8e5c026930c3e6039a33ce45964ff2167f6ecedd419db06c1" := by
+  decide
+
+/-! ## C14_fmtV_scalars — Go's `%v` on scalars -/
+
+theorem C14_fmtV_scalars (i : Int) (s r : String) :
+    fmtV (.int i) = toString i ∧ fmtV (.bool true) = "true" ∧ fmtV (.bool false) = "false" ∧
+    fmtV (.str s) = s ∧ fmtV (.flt r) = r ∧ fmtV .null = "<nil>" := by
+  refine ⟨?_, ?_, ?_, ?_, ?_, ?_⟩ <;> simp [fmtV]
+
+/-- tests -/
+example : fmtV (.int 42) = "42" := by decide
+example : fmtV (.int (-7)) = "-7" := by decide
+example : fmtV (.int 0) = "0" := by decide
+example : fmtV (.list [.int 1, .str "a", .null]) = "[1 a <nil>]" := by decide
+example : fmtV (.map [("a", .int 1), ("b", .bool true)]) = "map[a:1 b:true]" := by decide
+
 end Bkl
